@@ -86,7 +86,13 @@ func init() {
 		}
 	}
 	stubs = map[string]stubFn{
-		"errors.New": errRes("new"),
+		"errors.New": func(a *Act, st *State, callee *ssa.Function, args []Term, pos token.Pos) []Term {
+			// a new error whose Error() is the given text
+			r := a.tr.freshError(st, "new")
+			a.tr.eng.declareOnce(a.tr, "spec_errorString", "(declare-fun spec_errorString (Val) String)")
+			a.tr.assume(Implies(st.reach, Eq(app("spec_errorString", r), args[0])), "errors.New(s).Error() == s")
+			return []Term{r}
+		},
 		"fmt.Errorf": errRes("errorf"),
 		"fmt.Sprintf": str("sprintf"),
 		"fmt.Sprint":  str("sprint"),
